@@ -173,6 +173,10 @@ def rule_attr_set(rep, crate):
                             names.append(bytes.fromhex(v).decode())
                         except ValueError:
                             names.append('?')
+                # `[A, B, C].iter()`: rustc promotes the array; the driver prints it as ["a", "b", "c"]
+                for ty, pv in getattr(src, 'pretty', ()):
+                    if ty and re.search(r'\[&(\'\w+ )?str; \d+\]', ty):
+                        names += re.findall(r'"([^"\\]*)"', pv)
                 array_form = True
         rep.inst(rid, 'is_logos_attr:names', detail=sorted(names))
         if sorted(names) != ['logos', 'regex', 'token']:
@@ -223,8 +227,27 @@ def rule_attr_set(rep, crate):
         depth = []
         for b, t in calls:
             depth.append(loop_depth(s, b))
+        # `variant.fields.iter_mut().for_each(|field| strip_attrs_from_vec(&mut field.attrs))`: the closure body is one more
+        # level inside the loop that calls for_each; its source is the receiver of that for_each
+        closure_sources = {}
+        for b, t in find_calls(s, r'Iterator>?::for_each$'):
+            if len(t['args']) != 2:
+                continue
+            a = trace(s, t['args'][1])
+            cname = a[2]['rhs']['kind'].get('closure') if a[0] == 'agg' else None
+            clo = crate.fns.get(cname) if cname else None
+            if clo is None:
+                continue
+            inner = find_calls(clo, r'^strip_attrs_from_vec$')
+            others = [clo.callee_name(tt) for _b, tt in clo.calls() if not re.search(r'^strip_attrs_from_vec$', clo.callee_name(tt))]
+            if len(inner) == 1 and not others and desc(clo, inner[0][1]['args'][0]) == 'param2.attrs':
+                calls.append((b, t))
+                args.append('for_each-closure(param2.attrs)')
+                depth.append(loop_depth(s, b) + 1)
+                closure_sources[id(t)] = s.slice(t['args'][0])
+        args.sort()
         rep.inst(rid, 'strip_attributes:loop-depths', detail=sorted(depth))
-        if len(calls) != 3 or sorted(depth) != [0, 1, 2] or not all(a.endswith('.attrs') for a in args):
+        if len(calls) != 3 or sorted(depth) != [0, 1, 2] or not all(a.endswith('.attrs') or a.endswith('.attrs)') for a in args):
             rep.viol(rid, 'attr-set:levels', 'strip_attrs_from_vec is applied at loop depths %s to %s, expected enum (0), variant (1) and field (2) attributes' % (sorted(depth), args), loc(s))
         # the field level covers the fields of EVERY kind of variant: the innermost loop runs over `variant.fields` as a whole
         # (`&mut Fields` / Fields::iter_mut), not over the payload of one Fields variant (`Fields::Named(f) => f.named`), which
@@ -232,7 +255,7 @@ def rule_attr_set(rep, crate):
         for (b, t), dp in zip(calls, depth):
             if dp != 2:
                 continue
-            sl = s.slice(t['args'][0])
+            sl = closure_sources.get(id(t)) or s.slice(t['args'][0])
             whole = [c for c in sl.calls if re.search(r'(mut syn::Fields as std::iter::IntoIterator>::into_iter|syn::Fields::iter_mut)$', c)]
             rep.inst(rid, 'strip_attributes:field-source', detail=sorted(c for c in sl.calls if 'Fields' in c or 'Punctuated' in c))
             if not whole:
